@@ -37,6 +37,9 @@ def is_numeric_ty(ty):
     m = re.match(r"^(?:core|std)::result::Result<([^,]*), .*>$", ty)
     if m:
         return is_numeric_ty(m.group(1))
+    m = re.match(r"^(?:core|std)::ops::control_flow::ControlFlow<.*, ([^,<>]*)>$", ty)      # what `?` makes of an Option/Result of a number
+    if m:
+        return is_numeric_ty(m.group(1))
     return False
 
 
